@@ -15,6 +15,23 @@ CHECKS = {
         "outside": "bodies longer than the bound; goroutines started by SOCKET READ; gin/net/http",
         "min_completed": 5,
     },
+    "C05": {
+        "groups": [
+            {"pkg": "Havoc/pkg/agent", "with": AGENT_WITH, "entries": ["H_c05_gate"], "shards": 16},
+            {"pkg": "Havoc/pkg/agent", "with": AGENT_WITH, "entries": ["H_c05_completed", "H_c05_final"]},
+        ],
+        "bounds": "gate: every command id + one arbitrary other id, body 0..8 bytes, 0..2 outstanding ids on the receiver, the callback id outstanding on another agent; RequestCompleted: 0..4 outstanding ids (duplicates allowed); final: 11 single-package commands, body 0..12 bytes.",
+        "outside": "bodies beyond the bound; which callbacks are 'final' for multi-package commands",
+        "min_completed": 5,
+    },
+    "C04": {
+        "groups": [
+            {"pkg": "Havoc/pkg/agent", "with": AGENT_WITH, "entries": ["H_c04_dequeue", "H_c04_history", "H_c04_chunks"], "split": True},
+        ],
+        "bounds": "dequeue: queue of 0..4 jobs with 0..2 arguments each, byte arguments of any length up to 2^31 (abstract buffers); history: 1..5 enqueue/check-in operations on two agents; chunks: file size any value in [0, 3*30MB+1].",
+        "outside": "concurrent enqueue/check-in (two-thread harness not built in this revision); service Get path",
+        "min_completed": 3,
+    },
     "C03": {
         "groups": [
             {"pkg": "Havoc/pkg/common/parser", "entries": ["H_c03_int", "H_c03_bytes"]},
@@ -33,6 +50,27 @@ CHECKS = {
 LEVELS = {
     "C01": {"text": "Bounded symbolic model checking of the implementation: every feasible path of TaskDispatch / the request handlers for all byte values within the stated length bounds is executed over SMT terms; every Go run-time check is an obligation decided by z3. Holds = no feasible panic, unbounded loop or leaked lock within the bounds; says nothing beyond them.",
             "note": "Trusted: go/ssa, gosx, z3, stub contracts (AES-CTR as identity involution, os/net effect recorders, opaque formatting). Bounds in evidence."},
+    "C05": {
+        "groups": [
+            {"pkg": "Havoc/pkg/agent", "with": AGENT_WITH, "entries": ["H_c05_gate"], "shards": 16},
+            {"pkg": "Havoc/pkg/agent", "with": AGENT_WITH, "entries": ["H_c05_completed", "H_c05_final"]},
+        ],
+        "bounds": "gate: every command id + one arbitrary other id, body 0..8 bytes, 0..2 outstanding ids on the receiver, the callback id outstanding on another agent; RequestCompleted: 0..4 outstanding ids (duplicates allowed); final: 11 single-package commands, body 0..12 bytes.",
+        "outside": "bodies beyond the bound; which callbacks are 'final' for multi-package commands",
+        "min_completed": 5,
+    },
+    "C04": {
+        "groups": [
+            {"pkg": "Havoc/pkg/agent", "with": AGENT_WITH, "entries": ["H_c04_dequeue", "H_c04_history", "H_c04_chunks"], "split": True},
+        ],
+        "bounds": "dequeue: queue of 0..4 jobs with 0..2 arguments each, byte arguments of any length up to 2^31 (abstract buffers); history: 1..5 enqueue/check-in operations on two agents; chunks: file size any value in [0, 3*30MB+1].",
+        "outside": "concurrent enqueue/check-in (two-thread harness not built in this revision); service Get path",
+        "min_completed": 3,
+    },
+    "C05": {"text": "Bounded symbolic execution of the real TaskDispatch gate for every command id with symbolic request ids and bodies against an effect recorder; the negative statement (nothing happens for a non-outstanding id) is decided by the solver for all ids and bodies in the bound.",
+            "note": "Trusted: go/ssa, gosx, z3; recorder TeamServer, os/net effect stubs; single-package command table transcribed from Command.c."},
+    "C04": {"text": "Bounded symbolic execution of GetQueuedJobs/AddJobToQueue/UploadMemFileInChunks against a FIFO reference; sizes are symbolic so the 30 MB boundary and chunk boundaries are decided by the solver, not sampled.",
+            "note": "Sequential histories only; the concurrent part of the property is not covered in this revision."},
     "C03": {"text": "Bounded symbolic execution of pkg/common/parser and the registration path against a reference encoder mirroring Package.c; all byte values for every buffer length in the bound, so every residue of trailing bytes is covered.",
             "note": "Trusted: go/ssa, gosx, z3, the hand-written big-endian reference in the harness. Console text formatting is outside."},
 }
